@@ -9,6 +9,7 @@
    non-negative roots of pre_values.  sqrt / exp / log are never computed: they are characterised. *)
 From Coq Require Import QArith Qabs List Bool ZArith Permutation.
 Require Import SkV.C06.Model SkV.C06.Gen SkV.C06.Bridge SkV.C06.Agg SkV.C06.Proofs.
+Require Import SkV.C06.Wrap SkV.C06.GenWrap.
 Import ListNotations.
 Open Scope Q_scope.
 
@@ -168,6 +169,31 @@ Theorem C06_multioutput_average_of_columns : forall b k a rt mo hw cols,
   forall roots, post (mkfcase m mo hw cols) roots = mo_avg mo roots.
 Proof. exact simple_ignores_mo. Qed.
 Print Assumptions C06_multioutput_average_of_columns.
+
+(* ---- classes.  `gen_wrappers` is the table of wrapper facts regenerated from _classes.py.  A class
+   whose facts pass the decidable check `wrapper_ok`, called with the series its function needs,
+   calls that function with every constructor argument under its own name; a class that does not
+   pass either raises or loses / renames an argument (Refuted.v lists the 0.6.0 instances) *)
+Theorem C06_class_eq_function : forall w s, In (w, s) gen_wrappers -> wrapper_ok w s = true ->
+  exists b, class_call w s (s_series s) = Calls (s_name s) b /\
+            same_bindings b (same_options w) = true.
+Proof. exact (fun w s _ => wrapper_ok_sound w s). Qed.
+Print Assumptions C06_class_eq_function.
+
+Theorem C06_class_not_ok_is_visible : forall w s, wrapper_ok w s = false ->
+  match class_call w s (s_series s) with
+  | Calls f b => same_bindings b (same_options w) = false \/ f <> s_name s
+  | _ => True
+  end.
+Proof. exact wrapper_not_ok. Qed.
+Print Assumptions C06_class_not_ok_is_visible.
+
+(* every metric function has exactly one class in the regenerated table *)
+Theorem C06_every_function_has_a_class :
+  length gen_wrappers = 18%nat /\
+  forallb (fun ws => String.eqb (w_func (fst ws)) (s_name (snd ws))) gen_wrappers = true.
+Proof. exact gen_wrappers_cover. Qed.
+Print Assumptions C06_every_function_has_a_class.
 
 (* non-vacuity: RMSSE on a concrete two-output instance satisfies every hypothesis above and has
    a value, which the scale-invariance theorem transports to the data rescaled by 3 *)
